@@ -121,6 +121,14 @@ fn slices(len: usize) -> Vec<(usize, usize)> {
     } else {
         let mut cand = vec![(0, 1), (0, len), (1, len - 1), (len - 1, 1), (len / 2, 1), (len / 2, len - len / 2), (7, 13), (0, 16), (len - 16, 16), (1, 1), (255.min(len - 1), 1)];
         // a grid of positions for large values (block / buffer boundaries of the compressors)
+        // long slices: around typical internal buffer sizes (32 KiB, 64 KiB), not ending at the end
+        for l in [32767usize, 32768, 32769, 65535, 65536, 65537, 70000] {
+            for o in [0usize, 1, 4095] {
+                if o + l < len {
+                    cand.push((o, l));
+                }
+            }
+        }
         let mut o = 4096;
         while o + 64 <= len {
             cand.push((o - 1, 64));
